@@ -185,10 +185,52 @@ def runHist (id : String) (names : List String) : List Sexp → Nat → St → S
               ++ "\ttag=" ++ ",".intercalate tags
         runHist id names rest (k + 1) st' sp' (line :: acc)
 
+def isQueries : Sexp → Bool
+  | .list (.atom "queries" :: _) => true
+  | _ => false
+
 def answerHist (line : String) : List String :=
   match Sexp.parse line with
   | some (.list (.atom "hist" :: .atom id :: _opts :: .list (.atom "names" :: ns) :: steps)) =>
-      runHist id (ns.filterMap Sexp.atom?) steps 0 (.up Store.init) {} []
+      runHist id (ns.filterMap Sexp.atom?) (steps.filter fun x => !isQueries x) 0 (.up Store.init) {} []
+  | _ => ["bad-request"]
+
+/-- C05: the disk model, the memory model and the specification side by side -/
+def runBoth (id : String) (names : List String) :
+    List Sexp → Nat → St → MemStore → SpecSt → List String → List String
+  | [], _, _, _, _, acc => acc.reverse
+  | sx :: rest, k, st, ms, sp, acc =>
+    let key := "H" ++ id ++ "." ++ toString k
+    match parseStep sx with
+    | none => runBoth id names rest (k + 1) st ms sp ((key ++ "\tout=bad-request") :: acc)
+    | some op =>
+      let (ms', mo) := ms.step op
+      let (sp', so) := sp.step op
+      let memPart := "\tmout=" ++ outText mo ++ "\tmtabs=" ++ tabsText names ms'.abs
+        ++ "\tspec=" ++ tabsText names sp'.tables.get ++ "\tspecout=" ++ outText so
+      match st with
+      | .dead _ => runBoth id names rest (k + 1) st ms' sp' ((key ++ "\tout=dead" ++ memPart) :: acc)
+      | .up s =>
+        let (st', o) := step st op
+        let tags := reasonTags names st' sp' ++ stepTags s op st'
+        let diskPart := match st' with
+          | .dead _ => "\tout=panic"
+          | .up s' => "\tout=" ++ outText o ++ "\ttabs=" ++ tabsText names s'.abs
+        let engTag := match st' with
+          | .up s' => if tabsText names s'.abs != tabsText names ms'.abs then
+              (if names.any (fun n => match s'.abs n, ms'.abs n with
+                  | some (_, a), some (_, b) => a.length == b.length && a != b &&
+                      b.any (fun r => r.contains Val.null)
+                  | _, _ => false) then ["null-in-nonnull-column"] else ["engines-differ"])
+            else []
+          | .dead _ => []
+        runBoth id names rest (k + 1) st' ms' sp'
+          ((key ++ diskPart ++ memPart ++ "\ttag=" ++ ",".intercalate (tags ++ engTag)) :: acc)
+
+def answerBoth (line : String) : List String :=
+  match Sexp.parse line with
+  | some (.list (.atom "hist" :: .atom id :: _opts :: .list (.atom "names" :: ns) :: steps)) =>
+      runBoth id (ns.filterMap Sexp.atom?) (steps.filter fun x => !isQueries x) 0 (.up Store.init) {} {} []
   | _ => ["bad-request"]
 
 end StoreIO
